@@ -448,17 +448,28 @@ class Master(loader.Loader):
         """Run scheduler first time and update scheduled data."""
         placement = self.cell.schedule()
 
-        for servername, server in self.cell.members().items():
+        # We run two loops. First - remove all stale placement, before
+        # creating any new ones. This ensures that in the event of loop
+        # interruption for any reason there are no duplicate placements.
+        members = self.cell.members()
+        stored = dict()
+        for servername, server in members.items():
             placement_node = z.path.placement(servername)
             self.backend.ensure_exists(placement_node)
 
             current = set(self.backend.list(placement_node))
             correct = set(server.apps.keys())
+            stored[servername] = current
 
             for app in current - correct:
                 _LOGGER.info('Unscheduling: %s - %s', servername, app)
                 self.backend.delete(os.path.join(placement_node, app))
-            for app in correct - current:
+
+        for servername, server in members.items():
+            placement_node = z.path.placement(servername)
+            correct = set(server.apps.keys())
+
+            for app in correct - stored[servername]:
                 _LOGGER.info('Scheduling: %s - %s,%s',
                              servername, app, self.cell.apps[app].identity)
 
